@@ -269,6 +269,7 @@ pub fn run_low(sc: &Scenario, record: bool) -> LowOut {
             Meth::DOPRI5 => DOPRI5::builder()
                 .maybe_max_step(sc.max_step)
                 .dense_output(sc.low_dense)
+                .maybe_uround(k.uround)
                 .maybe_first_step(sc.first_step)
                 .max_steps(nmax)
                 .maybe_safety_factor(k.safety_factor)
@@ -289,6 +290,7 @@ pub fn run_low(sc: &Scenario, record: bool) -> LowOut {
             Meth::DOP853 => DOP853::builder()
                 .maybe_max_step(sc.max_step)
                 .dense_output(sc.low_dense)
+                .maybe_uround(k.uround)
                 .maybe_first_step(sc.first_step)
                 .max_steps(nmax)
                 .maybe_safety_factor(k.safety_factor)
@@ -309,6 +311,7 @@ pub fn run_low(sc: &Scenario, record: bool) -> LowOut {
             Meth::RADAU => RADAU::builder()
                 .maybe_max_step(sc.max_step)
                 .dense_output(sc.low_dense)
+                .maybe_uround(k.uround)
                 .maybe_min_step(sc.min_step)
                 .maybe_first_step(sc.first_step)
                 .max_steps(nmax)
